@@ -318,7 +318,7 @@ func C12(c *Ctx) {
 	r.Rule("R12.4", "root chain continues: after reverting, every successful path stores prevJnlHash (re-read from the target height's journal) and maxJnlHeight; a value other than that journal's root is stored only behind height == 0 or is overwritten before every return; the rollback is refused exactly when minJnlHeight > height (any spelling of that comparison), so the target's journal record exists whenever it is read.")
 	r.Rule("R12.7", "the journal records the real previous balance (shared with C10 R10.4): "+balanceInPlaceText)
 	c.balanceInPlace("R12.7")
-	r.NotDecided = append(r.NotDecided, "value-level equality of restored state; re-execution equivalence")
+	r.NotDecided = append(r.NotDecided, "value-level equality of restored state; the pairing of what the journal records about contract code with what the account loader reads unconditionally (seed C12-r9: both halves silent); re-execution equivalence")
 
 	rs := c.fn("R12.1", "internal/ledger.(*SimpleLedger).RollbackState")
 	rb := c.fn("R12.1", chainPrefix+"RollbackBlockChain")
